@@ -670,6 +670,7 @@ def _dict_merge_form(prog, t, en, emitted):
         return False
     E = merged[0]
     seen_fill = seen_emit = False
+    fill_stores = set()
     for p in t.paths:
         if p.outcome.kind == 'raise':
             continue
@@ -691,7 +692,31 @@ def _dict_merge_form(prog, t, en, emitted):
                         e.node.args) == 2 and U(e.node.args[0]) ==
                     '%s[0]' % sym and U(e.node.args[1]) == '%s[1]' % sym
                     for e in p.events)
-                if not fill:
+                # the same thing spelled `if name not in E: E[name] = d`
+                guarded = [e for e in p.events if e.kind == 'store'
+                           and isinstance(e.node, ast.Subscript)
+                           and U(e.node.value) == E and U(
+                               e.node.slice) == '%s[0]' % sym and U(
+                                   e.value) == '%s[1]' % sym and any(
+                               c.kind == 'test' and isinstance(
+                                   c.expr, ast.Compare) and isinstance(
+                                       c.expr.ops[0], (ast.In, ast.NotIn))
+                               and U(c.expr.left) == '%s[0]' % sym and U(
+                                   c.expr.comparators[0]) == E and (
+                                       c.pol == isinstance(c.expr.ops[0],
+                                                           ast.NotIn))
+                               for c in p.conds[:e.nconds])]
+                skipped = any(
+                    c.kind == 'test' and isinstance(
+                        c.expr, ast.Compare) and isinstance(
+                            c.expr.ops[0], (ast.In, ast.NotIn)) and U(
+                                c.expr.left) == '%s[0]' % sym and U(
+                                    c.expr.comparators[0]) == E and (
+                                        c.pol == isinstance(c.expr.ops[0],
+                                                            ast.In))
+                    for c in p.conds)
+                fill_stores |= {id(e) for e in guarded}
+                if not fill and not guarded and not skipped:
                     return False
                 seen_fill = True
             elif raw == '%s.items()' % E:
@@ -701,7 +726,7 @@ def _dict_merge_form(prog, t, en, emitted):
         # nothing else may change the merged dict
         for e in p.events:
             if e.kind == 'store' and isinstance(e.node, ast.Subscript) \
-                    and U(e.node.value) == E:
+                    and U(e.node.value) == E and id(e) not in fill_stores:
                 return False
             if e.kind == 'call':
                 mc = method_call(e.node)
